@@ -36,6 +36,11 @@ P = {
          "no path reaches AddRegistration without storing that literal into reg.Covert and passing its non-empty test; Covert has exactly the two reviewed writers; the proxy dials the stored string verbatim and no other dial site in station code takes a value derived from a registration's covert or original message. "
          "Textual address forms and subnet arithmetic are not decided.",
          "4/C06"),
+ "C07": (True, "guard dominance and edge-reachability of every admission condition, must-pass probe, value checks on the shared wrapper, typed error discipline (go/ssa)",
+         "Decides the 'only if' direction for every input and configuration: the validate/announce step is dominated by ValidateRegistration (true, nil), a non-empty checked covert, and is unreachable from the live-phantom edge, from the duplicate edge and (detector source) from the blocklisted-phantom edge; the probe is sent only for non-prescanned IPv4 phantoms after the covert check and cannot be bypassed for them; "
+         "ValidateRegistration rejects each incomplete field, unknown transports and (non-detector) blocklisted phantoms; per-family construction is gated by client support, station flag and an IPv4 registrant; an IPv6 registrant with an IPv4 phantom never yields a registration; NewRegistration succeeds only if every derivation returned no error; sharing is gated, after the probe, at most once, marked pre-scanned/DetectorPrescan and suppressed for the IPv6 twin. "
+         "Completeness (the 'if' direction) and the meaning of the predicates are not decided.",
+         "4/C07"),
  "C08": (True, "value-flow key agreement, must-pass pairing, finite predicate abstraction (truth table) of the sweep condition, constant tables (go/ssa)",
          "Decides: the timeout map is keyed by the same function of (phantom, transport identifier) as the registration map at insertion and activation (so each tracked registration has its own record for every history of secrets/transports/families); "
          "both maps are inserted into / deleted from on the same paths and empty per-phantom maps are removed; the sweep selects a record iff (unused && age>T_unused) || age>T_active, exhaustively over all valuations of its atoms; T_unused=10 min and T_active=6 h with no other writer; activation flips the looked-up record; a ticker loop sweeps. "
